@@ -34,6 +34,8 @@ type OrOp struct {
 type OrCase struct {
 	Vals []OrVal `json:"vals"`
 	Ops  []OrOp  `json:"ops"`
+	// Hostile makes claims carry contents at the edge of what stateless validation admits (C05's oracle histories).
+	Hostile bool `json:"hostile,omitempty"`
 }
 
 func genOrCase(t *rapid.T) interface{} {
@@ -172,6 +174,11 @@ func wMedians(xs []wv) (sdk.Dec, sdk.Dec, bool) {
 }
 
 func runOrCase(ci interface{}, rec *pbt.Rec) *pbt.Failure {
+	return runOrCaseMode(ci, rec, false)
+}
+
+// runOrCaseMode with blockers=true reports a panicking or hanging blocker (C05) and nothing else.
+func runOrCaseMode(ci interface{}, rec *pbt.Rec, blockers bool) *pbt.Failure {
 	c := ci.(*OrCase)
 	cfg := sim.Config{Tokens: attTokens, Prices: []sim.PriceCfg{{Name: "hub", Value: "1"}, {Name: "eth", Value: "1"}, {Name: "bnb", Value: "1"}}}
 	for _, v := range c.Vals {
@@ -199,7 +206,16 @@ func runOrCase(ci interface{}, rec *pbt.Rec) *pbt.Failure {
 	endBlock := func() *pbt.Failure {
 		pBefore, hBefore, eBefore := stateOf()
 		if err := h.End(); err != nil {
+			if blockers {
+				return pbt.Failf("oracle-blocker:"+normErr(err.Error()), "height %d: %v", height, err)
+			}
 			return nil // C05's subject
+		}
+		if blockers {
+			epoch = h.O.GetCurrentEpoch(h.Ctx())
+			latestPrices, latestHolders = map[int]map[string]sdk.Dec{}, map[int]*otypes.Holders{}
+			claimedP, claimedH = map[int]int{}, map[int]int{}
+			return nil
 		}
 		pAfter, hAfter, eAfter := stateOf()
 		if height%5 != 0 {
@@ -362,6 +378,20 @@ func runOrCase(ci interface{}, rec *pbt.Rec) *pbt.Failure {
 					ps.List = append(ps.List, &otypes.Price{Name: "extra", Value: val})
 					vals["extra"] = val
 				}
+				if c.Hostile {
+					switch op.Variant {
+					case 0:
+						ps.List = append(ps.List, &otypes.Price{Name: "neg", Value: sdk.NewDec(-5)})
+					case 1:
+						ps.List = append(ps.List, &otypes.Price{Name: "hub", Value: sdk.NewDec(3)}, &otypes.Price{Name: "hub", Value: sdk.NewDec(9)})
+					case 2:
+						ps.List = append(ps.List, &otypes.Price{Name: "huge", Value: sdk.NewDecFromBigInt(new(big.Int).Exp(big.NewInt(10), big.NewInt(58), nil))})
+					case 3:
+						ps.List = append(ps.List, &otypes.Price{Name: "", Value: sdk.ZeroDec()})
+					case 4:
+						ps.List = append(ps.List, &otypes.Price{Name: "unset"})
+					}
+				}
 				r = h.Deliver(&otypes.MsgPriceClaim{Epoch: uint64(e), Prices: ps, Orchestrator: signer})
 				if op.Missing && counts && r.Err == nil {
 					return fail("claim-missing-required-price", "price claim without a positive %s was accepted", orRequired[2])
@@ -375,6 +405,22 @@ func runOrCase(ci interface{}, rec *pbt.Rec) *pbt.Failure {
 				}
 			} else {
 				hl := orHolders(op.Variant)
+				if c.Hostile {
+					switch op.Variant {
+					case 0:
+						hl.List = append(hl.List, &otypes.Holder{Address: "neg", Value: sdk.NewInt(-7)})
+					case 1:
+						hl = &otypes.Holders{}
+					case 2:
+						for k := 0; k < 300; k++ {
+							hl.List = append(hl.List, &otypes.Holder{Address: fmt.Sprintf("%040x", k+1), Value: sdk.NewInt(int64(k))})
+						}
+					case 3:
+						hl.List = append(hl.List, &otypes.Holder{Address: "unset"})
+					case 4:
+						hl = nil
+					}
+				}
 				r = h.Deliver(&otypes.MsgHoldersClaim{Epoch: uint64(e), Holders: hl, Orchestrator: signer})
 				if r.Err == nil && counts {
 					if _, again := claimedH[v]; again {
@@ -404,6 +450,24 @@ func runOrCase(ci interface{}, rec *pbt.Rec) *pbt.Failure {
 		rec.Label("competing-holder-lists")
 	}
 	return nil
+}
+
+func normErr(m string) string {
+	var b strings.Builder
+	for _, r := range m {
+		if r >= '0' && r <= '9' {
+			continue
+		}
+		b.WriteRune(r)
+	}
+	out := b.String()
+	if i := strings.Index(out, " ["); i > 0 {
+		out = out[:i]
+	}
+	if len(out) > 80 {
+		out = out[:80]
+	}
+	return out
 }
 
 func fmtWV(xs []wv) string {
